@@ -2,6 +2,7 @@ package scen
 
 import (
 	"bytes"
+	"encoding/json"
 	"fmt"
 	"strings"
 )
@@ -134,15 +135,81 @@ func GenHostile(t *Tape) *Scenario {
 		"pdf":     {"application/pdf", BuildPDF([]string{target, "http://10.3.3.3/from-pdf"})},
 		"plain":   {"text/plain", []byte("see " + target + " and http://10.3.3.3/plain?x=1&y=2 or www.example.com/path\n")},
 	}
-	kinds := []string{"html", "json", "xml", "sitemap", "s3", "m3u8", "pdf", "plain"}
+	// structure-aware hostile values: attribute and URL shapes that parsers meet in the wild
+	srcsets := []string{"", ",", " ", " , ", ",,,", "a.png 1x,", "a.png 1x , ", "a.png,,b.png 2x", ", a.png", "a.png 1x,\n", "\t", "a.png 1x, , b.png 2x"}
+	oddURLs := []string{target + "?a=1&&b=2", target + "?&a=1", target + "?a=1;b=2", target + "?a=%zz", target + "?a=%", target + "?=", target + "?&", target + "?;", target + "?a=1&b=2&", "http://10.3.3.3/p?x=%00&y", "http://10.3.3.3/%", "http://10.3.3.3/%zz/a.png", "http://10.3.3.3:/a.png", "http://10.3.3.3/a.png#", "//10.3.3.3//a.png", "http://10.3.3.3/a b.png", "/\\10.3.3.3/a.png", "http://10.3.3.3/" + strings.Repeat("a/", 600), "?", "#", "./././", "../../../../..", "http://10.3.3.3/a.png?" + strings.Repeat("k=v&", 400)}
+	crafted := func() []byte {
+		var sb strings.Builder
+		sb.WriteString("<!DOCTYPE html><html><head>")
+		for i := 0; i < 1+c.N(4); i++ {
+			u := oddURLs[c.N(len(oddURLs))]
+			switch c.N(5) {
+			case 0:
+				sb.WriteString(`<link rel="stylesheet" href="` + u + `">`)
+			case 1:
+				sb.WriteString(`<script src="` + u + `"></script>`)
+			case 2:
+				sb.WriteString(`<meta content="` + u + `">`)
+			case 3:
+				sb.WriteString(`<style>.a{background:url(` + u + `)}</style>`)
+			default:
+				sb.WriteString(`<script type="application/json">{"u":"` + strings.ReplaceAll(u, `\`, `\\`) + `"}</script>`)
+			}
+		}
+		sb.WriteString("</head><body>")
+		for i := 0; i < 1+c.N(5); i++ {
+			ss := srcsets[c.N(len(srcsets))]
+			switch c.N(5) {
+			case 0:
+				sb.WriteString(`<img srcset="` + ss + `">`)
+			case 1:
+				sb.WriteString(`<img data-srcset="` + ss + `" src="` + oddURLs[c.N(len(oddURLs))] + `">`)
+			case 2:
+				sb.WriteString(`<picture><source srcset="` + ss + `"><source data-srcset="` + ss + `"></picture>`)
+			case 3:
+				sb.WriteString(`<a href="` + oddURLs[c.N(len(oddURLs))] + `" onclick="window.location='` + oddURLs[c.N(len(oddURLs))] + `'">x</a>`)
+			default:
+				sb.WriteString(`<div style="background-image:url(` + oddURLs[c.N(len(oddURLs))] + `)" data-item='{"a":["` + ss + `"]}'></div>`)
+			}
+		}
+		sb.WriteString("</body></html>")
+		return []byte(sb.String())
+	}
+	kinds := []string{"html", "json", "xml", "sitemap", "s3", "m3u8", "pdf", "plain", "html-crafted", "html-crafted", "json-crafted", "sitemap-crafted"}
 	nHostile := 1 + c.N(4)
 	for i := 0; i < nHostile; i++ {
 		host := c.Host()
 		kind := kinds[c.N(len(kinds))]
-		s := samples[kind]
-		body := s.body
-		if !c.Chance(1, 6) {
-			body = Mutate(g, body)
+		var s struct {
+			ct   string
+			body []byte
+		}
+		var body []byte
+		switch kind {
+		case "html-crafted":
+			s.ct, body = "text/html", crafted()
+			kind = "html"
+		case "json-crafted":
+			u1, u2 := oddURLs[c.N(len(oddURLs))], oddURLs[c.N(len(oddURLs))]
+			jb, _ := json.Marshal(map[string]any{"a": u1, "b": []string{u2, "http://10.3.3.3/x.png"}, "c": map[string]string{"d": u1}})
+			s.ct, body = "application/json", jb
+			kind = "json"
+		case "sitemap-crafted":
+			var sb strings.Builder
+			sb.WriteString(`<?xml version="1.0"?><urlset xmlns="http://www.sitemaps.org/schemas/sitemap/0.9">`)
+			for j := 0; j < 1+c.N(4); j++ {
+				sb.WriteString("<url><loc>" + strings.NewReplacer("&", "&amp;", "<", "&lt;").Replace(oddURLs[c.N(len(oddURLs))]) + "</loc></url>")
+			}
+			sb.WriteString("</urlset>")
+			s.ct, body = "application/xml", []byte(sb.String())
+			kind = "sitemap"
+		default:
+			sm := samples[kind]
+			s.ct, s.body = sm.ct, sm.body
+			body = s.body
+			if !c.Chance(1, 6) {
+				body = Mutate(g, body)
+			}
 		}
 		hdr := [][2]string{{"Content-Type", s.ct}}
 		if kind == "s3" {
@@ -158,7 +225,7 @@ func GenHostile(t *Tape) *Scenario {
 			hdr = append(hdr, [2]string{"Content-Encoding", "gzip"}) // body is not gzip
 		case 3:
 			status = c.PickInt(301, 302, 307)
-			hdr = append(hdr, [2]string{"Location", c.Pick("http://[::1", "%%%", "//", "javascript:alert(1)", "http://"+strings.Repeat("a", 3000)+".example/", "\\\\host\\share", "http://10.3.3.3:99999/", "?", "#", " ", "http://10.3.3.3/\x7f\x01")})
+			hdr = append(hdr, [2]string{"Location", c.Pick(oddURLs[c.N(len(oddURLs))], oddURLs[c.N(len(oddURLs))], "http://[::1", "%%%", "//", "javascript:alert(1)", "http://"+strings.Repeat("a", 3000)+".example/", "\\\\host\\share", "http://10.3.3.3:99999/", "?", "#", " ", "http://10.3.3.3/\x7f\x01")})
 		case 4:
 			status = c.PickInt(200, 206, 203, 418, 599, 100+c.N(500))
 			if status < 200 {
